@@ -1221,6 +1221,10 @@ func cacheReplay(ctx *Ctx, s *schema.Schema) {
 			cacheReplayRun(ctx, s, l)
 			continue
 		}
+		if strings.HasPrefix(l, "enc.hist ") {
+			histReplay(ctx, l)
+			continue
+		}
 		if !strings.HasPrefix(l, "enc.reuse ") {
 			continue
 		}
@@ -2137,5 +2141,7 @@ func runCache(ctx *Ctx) {
 	}
 	e.concurrentScenarios(rr.path)
 	e.reuseLines()
+	e.histLines()
+	e.marshalAliasOracle()
 	e.cacheRunLines()
 }
